@@ -663,6 +663,38 @@ pub enum TextSpace {
     /// Number literals at and around the powers of two where an integer type ends, in the
     /// places where the language reads a number.
     Numbers,
+    /// Every ordered pair of generated expressions of <= 2 constructors written side by side,
+    /// unparenthesised, in each place where the grammar takes a list.
+    Pairs {
+        exprs: std::sync::Arc<Vec<String>>,
+    },
+}
+
+pub fn p_pairs() -> Value {
+    json!({"space": "pairs"})
+}
+
+pub const PAIR_CONTEXTS: [(&str, &str, &str, &str); 6] = [
+    ("object members", "let a = { ", ", ", " };"),
+    ("operations of a relation", "res / on ", ", ", ";"),
+    ("parameters of a transfer", "let a = get { ", ", ", " } -> <>;"),
+    ("headers of a content", "let a = <headers={ ", ", ", " }, {}>;"),
+    ("arguments of an application", "let a = f ", " ", ";"),
+    ("operands of a range", "let a = get -> ", " :: ", ";"),
+];
+
+fn pair_exprs() -> Vec<String> {
+    let all = crate::space::agnostic_exprs(2);
+    let mut v = Vec::new();
+    for sz in [1usize, 2] {
+        for e in all[sz].iter() {
+            let t = crate::gen::print_expr(e);
+            if !v.contains(&t) {
+                v.push(t);
+            }
+        }
+    }
+    v
 }
 
 pub fn p_prefix() -> Value {
@@ -726,9 +758,11 @@ pub fn p_imports() -> Value {
     json!({"space": "imports"})
 }
 
-pub const IMPORT_PATHS: [&str; 22] = [
+pub const IMPORT_PATHS: [&str; 28] = [
     ".", "..", "/", "./", "../", "sub/", "sub", "", " ", "main.oal", "./main.oal", "../main.oal", "a b.oal", "%2e", "%00.oal",
     "file:///", "file:///etc/hostname", "http://localhost/x.oal", "\\\\", "nul", "main.oal/", "x.oal#frag?q=1",
+    // the module itself under another spelling of its URL
+    "main.oal?v=2", "main.oal#top", "?", "#", "./main.oal?", "MAIN.OAL",
 ];
 
 fn import_texts() -> Vec<(String, String)> {
@@ -896,6 +930,7 @@ impl TextSpace {
                 TextSpace::Prefix { progs, total }
             }
             "numbers" => TextSpace::Numbers,
+            "pairs" => TextSpace::Pairs { exprs: std::sync::Arc::new(pair_exprs()) },
             "nest" => TextSpace::Nest {
                 cases: nest_cases(p["thorough"].as_bool().unwrap_or(false)),
             },
@@ -918,6 +953,7 @@ impl TextSpace {
             TextSpace::Imports => import_texts().len() as u64,
             TextSpace::Prefix { total, .. } => *total,
             TextSpace::Numbers => number_texts().len() as u64,
+            TextSpace::Pairs { exprs } => (exprs.len() * exprs.len() * PAIR_CONTEXTS.len()) as u64,
         }
     }
 
@@ -967,6 +1003,13 @@ impl TextSpace {
             TextSpace::Unparen { texts } => texts[idx as usize].clone(),
             TextSpace::Imports => import_texts()[idx as usize].clone(),
             TextSpace::Numbers => number_texts()[idx as usize].clone(),
+            TextSpace::Pairs { exprs } => {
+                let n = exprs.len() as u64;
+                let (c, rest) = ((idx / (n * n)) as usize, idx % (n * n));
+                let (a, b) = (&exprs[(rest / n) as usize], &exprs[(rest % n) as usize]);
+                let (name, pre, sep, post) = PAIR_CONTEXTS[c];
+                (format!("{pre}{a}{sep}{b}{post}"), format!("two expressions as {name}"))
+            }
             TextSpace::Prefix { progs, .. } => {
                 let k = progs.partition_point(|(_, base)| *base <= idx) - 1;
                 let (p, base) = progs[k];
